@@ -100,6 +100,11 @@ def cases(ctx):
                         yield {"kind": "result", "role": role, "api": api, "number": number,
                                "bells": [rng.randrange(4) for _ in range(number)], "bases": [rng.randrange(5) for _ in range(number)],
                                "remote": rng.choice(["bob", "charlie"]), "socket": rng.choice([0, 1])}
+                # single-communication-qubit (NV) hardware: the pairs are moved to memory qubits n-1 .. 0
+                if api in ("keep", "keep_with_info", "measure") and mine():
+                    yield {"kind": "result", "role": role, "api": api, "number": number, "hardware": "nv",
+                           "bells": [rng.randrange(4) for _ in range(number)], "bases": [rng.randrange(5) for _ in range(number)],
+                           "remote": rng.choice(["bob", "charlie"]), "socket": rng.choice([0, 1])}
 
 
 def _requests(ctx, case):
@@ -108,9 +113,13 @@ def _requests(ctx, case):
     from netqasm.sdk.build_epr import EprMeasBasis
     from netqasm.sdk.epr_socket import EPRSocket
     es = EPRSocket(case["remote"], epr_socket_id=case["socket"], remote_epr_socket_id=case["socket"])
-    plan = [PlannedRequest("create", "M", case["number"], remote=NODE_IDS[case["remote"]], socket=case["socket"]) for _ in case["params"]]
+    def fld(base):
+        return lambda pair, name: (base + tag(pair, M_FIELDS, name)) if name in ("create_id", "goodness", "measurement_outcome") else None
+    plan = [PlannedRequest("create", "M", case["number"], remote=NODE_IDS[case["remote"]], socket=case["socket"], fields=fld(10000 * (j + 1)))
+            for j, _ in enumerate(case["params"])]
     link = LinkModel(plan, partners=False)
     pipe = Pipe(epr_sockets=[es], link=link, max_qubits=5)
+    results = []
     try:
         with pipe.conn as conn:
             for prm in case["params"]:
@@ -126,8 +135,20 @@ def _requests(ctx, case):
                         kw[k2] = tuple(v)
                     else:
                         kw[k2] = v
-                es.create_measure(case["number"], **kw)
+                results.append(es.create_measure(case["number"], **kw))
             conn.flush()
+            # result side: all these requests were outstanding on ONE socket at the same time; the handles of the j-th call
+            # read the responses generated for the j-th request
+            for j, res in enumerate(results):
+                for i, r in enumerate(res):
+                    ctx.count("result_handles_read", 2)
+                    want_o = 10000 * (j + 1) + tag(i, M_FIELDS, "measurement_outcome")
+                    want_g = 10000 * (j + 1) + tag(i, M_FIELDS, "goodness")
+                    if r.raw_measurement_outcome.value != want_o or r.generation_duration.value != want_g:
+                        ctx.fail(case, f"{len(results)} requests outstanding on one socket: call {j}, pair {i}: handles read outcome "
+                                       f"{r.raw_measurement_outcome.value} / duration {r.generation_duration.value}; the responses generated for that "
+                                       f"request carried {want_o} / {want_g}")
+                        return ctx.case(case, True)
     except (hc.ControllerFault, hc.Deadlock, hc.StepLimit) as e:
         ctx.fail(case, f"{len(case['params'])} create_measure calls in one subroutine: controller run failed: {e}")
         return ctx.case(case, True)
@@ -450,7 +471,7 @@ def _result(ctx, case):
     es = EPRSocket(case["remote"], epr_socket_id=case["socket"], remote_epr_socket_id=case["socket"])
     req = PlannedRequest(role, tp, number, remote=remote, socket=case["socket"], bells=case["bells"], fields=fld)
     link = LinkModel([req])
-    pipe = Pipe(epr_sockets=[es], link=link, max_qubits=5)
+    pipe = Pipe(epr_sockets=[es], link=link, max_qubits=5, hardware=case.get("hardware", "generic"))
     qubits, infos, mres = None, None, None
     try:
         with pipe.conn as conn:
